@@ -325,6 +325,27 @@ class SMUserList(UserList, ABC):
             raise ValueError("can't insert a multivalued element - must have len() == 1")
         self.data[i] = value.A
 
+    # list concatenation and repetition, which UserList provides for + and *,
+    # are not meaningful for spatial math objects: x + y must not concatenate
+    # and x * 2 must not repeat.  Subclasses override the operators they define.
+    def __add__(self, other):
+        return NotImplemented
+
+    def __radd__(self, other):
+        return NotImplemented
+
+    def __iadd__(self, other):
+        return NotImplemented
+
+    def __mul__(self, other):
+        return NotImplemented
+
+    def __rmul__(self, other):
+        return NotImplemented
+
+    def __imul__(self, other):
+        return NotImplemented
+
     # flag these binary operators as being not supported
     def __lt__(self, other):
         return NotImplementedError
